@@ -200,7 +200,8 @@ def check(ctx: Ctx, col: Collector, tier: str) -> None:
             n3.append(fmt_facts(o.facts)[:160])
         # N2: by-name re-exports (third block): the import's qualified name is a suffix of the declaration's qualified name
         # ... or, resolved against the re-exporting package, is that name (a membership of qname in the set of resolutions)
-        byname = any(".qualified_imports[*].qualified_name" in k and (k.startswith("truthy:.endswith(") and "<qname>" in k or k.startswith("<qname> in {")) and v for k, v in facts.items())
+        byname = any(".qualified_imports[*].qualified_name" in k and (k.startswith("truthy:.endswith(") and "<qname>" in k or k.startswith("<qname> in {") or k.startswith("<qname>==") or k.endswith("==<qname>"))
+                     and v for k, v in facts.items())
         whole_module = any("module_is_reexported" in k for k in facts) or any(re.search(r"in \{.*\.\*", k) and v for k, v in facts.items()) or (
             resolved_module_test and any(k.startswith("truthy:any(") and v for k, v in facts.items()))
         if not byname and not whole_module:
@@ -397,8 +398,9 @@ def reexport_table(ctx: Ctx, col: Collector) -> None:
             facts = dict(list(o.facts)[base:])
             vals = []
             for a in atoms:
+                # an atom may be established by several facts of one path (`q == x or q == y`): it holds if one of them does
                 ks = [k for k in facts if a(k)]
-                vals.append(facts[ks[0]] if ks else None)
+                vals.append((any(facts[k] for k in ks)) if ks else None)
             combos = [()]
             for v in vals:
                 combos = [c + (x,) for c in combos for x in ((v,) if v is not None else (True, False))]
@@ -410,7 +412,8 @@ def reexport_table(ctx: Ctx, col: Collector) -> None:
     node, _, _, entry = wl[0]
     # "the star import names the module by its qualified name": an equality, or a membership of the module's qualified name in the resolutions of the
     # imported text (absolute, relative to the importing package)
-    atoms = [lambda k: k in ("<MN>==<W>", "<W>==<MN>"), lambda k: k in ("<MQ>==<W>", "<W>==<MQ>") or (k.startswith("<MQ> in {") and "<W>" in k)]
+    atoms = [lambda k: k in ("<MN>==<W>", "<W>==<MN>"), lambda k: k in ("<MQ>==<W>", "<W>==<MQ>") or (k.startswith("<MQ> in {") and "<W>" in k)
+             or (("<MQ>==" in k or k.endswith("==<MQ>")) and "<W>" in k)]
     for same in (True, False):
         for other in (True, False):
             if not same and not other:
@@ -460,7 +463,8 @@ def reexport_table(ctx: Ctx, col: Collector) -> None:
     # "the import names the declaration": a suffix test of the declaration's qualified name against the imported name, in any spelling
     # (plain, or with a separator prepended to both sides so that whole segments are compared)
     # ... or a membership of the declaration's qualified name in the resolutions of the imported name (absolute, relative to the importing package)
-    a_end = lambda k: (k.startswith("truthy:.endswith(") and "<qname>" in k and "<Q>" in k) or (k.startswith("<qname> in {") and "<Q>" in k)  # noqa: E731
+    a_end = lambda k: (k.startswith("truthy:.endswith(") and "<qname>" in k and "<Q>" in k) or (k.startswith("<qname> in {") and "<Q>" in k) or (  # noqa: E731
+        (k.startswith("<qname>==") or k.endswith("==<qname>")) and "<Q>" in k)
     for ni in (True, False):
         t = verdicts(n2, e2, {"not_internal": Const(ni)}, qi, [a_end, a_none, a_priv])
         for (endq, anone, apriv), got in sorted(t.items()):
